@@ -798,3 +798,15 @@ func JSON(v interface{}) string {
 
 // DeadlineTime returns the unit's soft deadline (zero when none).
 func (r *Rec) DeadlineTime() time.Time { return r.deadline }
+
+// NewReplayRec returns a recorder for use inside Replay functions.
+func NewReplayRec() *Rec { return newRec("replay", bufio.NewWriter(io.Discard)) }
+
+// Signatures lists the signatures recorded so far.
+func (r *Rec) Signatures() []string {
+	var out []string
+	for _, f := range r.Findings {
+		out = append(out, f.Sig)
+	}
+	return out
+}
